@@ -473,6 +473,79 @@ theorem default_client_ip_header_matches_source (cfg : Cfg Unit) (h : cfg.client
   rw [h]
   decide
 
+/-! ## Caddyfile glue: the configuration is what the operator wrote -/
+
+/-- **no silent widening of trust (server).** Every range the adapter hands to the server's static
+    source was written on the LAST `trusted_proxies static` line, or is one of the source's
+    `private_ranges` and that line says `private_ranges`. -/
+theorem adapted_server_ranges_are_written (s : List (List Bytes)) (n : Nat) (arg : Bool)
+    (c rp : List (List Bytes)) (a : Adapted) (rs : List Bytes) (r : Bytes)
+    (h : adaptOptions s n arg c rp = some a) (hs : a.srvRanges = some rs) (hr : r ∈ rs) :
+    ∃ l, lastLine s = some l ∧ l ∈ s ∧ (r ∈ l ∨ (tokPrivateRanges ∈ l ∧ r ∈ Gen.privateRanges)) := by
+  unfold adaptOptions at h
+  split at h
+  · cases h
+  · split at h
+    · cases h
+    · cases h
+      simp only at hs
+      cases hl : lastLine s with
+      | none => simp [hl] at hs
+      | some l =>
+        simp only [hl, Option.map_some, Option.some.injEq] at hs
+        subst hs
+        exact ⟨l, rfl, lastLine_mem s l hl, expandRanges_mem l r hr⟩
+
+/-- **… (handler).** Every range of reverse_proxy's `trusted_proxies` was written on one of its
+    lines, or is a `private_ranges` member and that line says `private_ranges`. -/
+theorem adapted_handler_ranges_are_written (s : List (List Bytes)) (n : Nat) (arg : Bool)
+    (c rp : List (List Bytes)) (a : Adapted) (r : Bytes)
+    (h : adaptOptions s n arg c rp = some a) (hr : r ∈ a.rpRanges) :
+    ∃ l, l ∈ rp ∧ (r ∈ l ∨ (tokPrivateRanges ∈ l ∧ r ∈ Gen.privateRanges)) := by
+  unfold adaptOptions at h
+  split at h
+  · cases h
+  · split at h
+    · cases h
+    · cases h
+      simp only [List.mem_flatten, List.mem_map] at hr
+      obtain ⟨_, ⟨l, hl, rfl⟩, hr⟩ := hr
+      exact ⟨l, hl, expandRanges_mem l r hr⟩
+
+/-- **`client_ip_headers` keeps the written order.** The adapter succeeds on the header lines iff no
+    name is written twice, and then the configured list is the written names in file order (nil —
+    hence the Provision default — iff none was written). -/
+theorem adapted_client_ip_headers_keep_written_order (s : List (List Bytes)) (n : Nat)
+    (c rp : List (List Bytes)) :
+    (c.flatten.Nodup →
+      ∃ a, adaptOptions s n false c rp = some a ∧
+        a.clientIPHeaders = (if c.flatten.isEmpty then none else some c.flatten)) ∧
+    (¬ c.flatten.Nodup → adaptOptions s n false c rp = none) := by
+  have hl := clientIPHeaderLines_eq c [] List.nodup_nil
+  simp only [List.nil_append] at hl
+  constructor
+  · intro hn
+    simp [adaptOptions, hl, hn]
+  · intro hn
+    simp [adaptOptions, hl, hn]
+
+/-- strict mode is on iff `trusted_proxies_strict` was written (any number of times) -/
+theorem adapted_strict_iff_written (s : List (List Bytes)) (n : Nat) (arg : Bool)
+    (c rp : List (List Bytes)) (a : Adapted) (h : adaptOptions s n arg c rp = some a) :
+    a.strict = true ↔ n > 0 := by
+  unfold adaptOptions at h
+  split at h
+  · cases h
+  · split at h
+    · cases h
+    · cases h; simp
+
+/-- the `private_ranges` shortcut stands for exactly the documented private and loopback ranges
+    (regenerated from internal/ranges.go) -/
+theorem private_ranges_matches_documented :
+    Gen.privateRanges =
+      [b!"192.168.0.0/16", b!"172.16.0.0/12", b!"10.0.0.0/8", b!"127.0.0.1/8", b!"fd00::/8", b!"::1"] := by decide
+
 /-! ## model artefacts -/
 
 /-- `strings.TrimSpace`'s fuel (the input length) is never exhausted: nothing is left to trim -/
@@ -569,6 +642,16 @@ example : matchCidrZones toyNet b!"fe80::1" b!"eth0" exRanges = true ∧
     matchCidrZones toyNet b!"fe80::1" b!"eth1" exRanges = false := by decide
 -- default_client_ip_header_matches_source: the witness configuration leaves client_ip_headers unset
 example : witCfg.clientIPHeaders = none ∧ effectiveHeaders witCfg = [b!"X-Forwarded-For"] := by decide
+-- Caddyfile glue: two `trusted_proxies static` lines (the last wins, `private_ranges` expands), strict
+-- written twice, two header lines, a handler line; a repeated header name makes the adapter fail
+example : adaptOptions [[b!"8.8.8.8"], [b!"private_ranges", b!"203.0.113.0/24"]] 2 false
+      [[b!"X-Real-IP"], [b!"X-Forwarded-For", b!"Forwarded"]] [[b!"::1"], [b!"private_ranges"]] =
+    some ⟨some (Gen.privateRanges ++ [b!"203.0.113.0/24"]), true,
+          some [b!"X-Real-IP", b!"X-Forwarded-For", b!"Forwarded"], b!"::1" :: Gen.privateRanges,
+          b!"{http.vars.client_ip}"⟩ := by decide
+example : adaptOptions [] 0 false [[b!"X-Real-IP"], [b!"X-Real-IP"]] [] = none ∧
+    ¬ ([[b!"X-Real-IP"], [b!"X-Real-IP"]] : List (List Bytes)).flatten.Nodup := by decide
+example : adaptOptions [] 0 false [] [] = some ⟨none, false, none, [], phClientIP⟩ := by decide
 -- elements_are_per_value
 example : elements [b!"a,b", b!"", b!"c"] = [b!"a", b!"b", b!"", b!"c"] := by decide
 -- trimSpace_never_runs_out_of_fuel: NBSP, EM SPACE and ASCII blanks around an address
